@@ -92,11 +92,15 @@ theorem parseResp_evs (s : Stack) (r : Resp) : ∀ e ∈ (parseResp s r).evs, e.
   simp only [List.mem_append]
   intro e he
   rcases he with he | he
-  · split at he
-    · right; simp at he; exact ⟨_, he⟩
+  · right
+    unfold unmEv at he
+    split at he
+    · simp at he; exact ⟨_, he⟩
     · simp at he
-  · split at he
-    · left; simp at he; simp [he, Ev.isRaised]
+  · left
+    unfold newErrEv at he
+    split at he
+    · simp at he; simp [he, Ev.isRaised]
     · simp at he
 
 /-- Events that can appear inside a round trip (wrappers + Client.roundTrip). -/
@@ -496,6 +500,10 @@ def Out.atts : Out → List Att
   | .crash a => a
   | .ret _ _ _ a => a
   | .mustPanic _ _ a => a
+
+def Out.isCrash : Out → Bool
+  | .crash _ => true
+  | _ => false
 
 theorem run_atts (fx : Fixes) (s : Stack) : (run fx s).atts = (callDo fx s).atts := by
   unfold run
